@@ -22,6 +22,23 @@ class LegacyTool:
         return self._f(*a, **k)
 
 
+class ShiftyCall:
+    """a provider-controlled call object whose `name` answers with one (allowed) tool for the first
+    reads and another tool afterwards (time-of-check / time-of-use on the request object)"""
+
+    def __init__(self, cid, first, then, switch_after):
+        self.id = cid
+        self.arguments = {}
+        self._names = (first, then)
+        self._reads = 0
+        self._switch = switch_after
+
+    @property
+    def name(self):
+        self._reads += 1
+        return self._names[0] if self._reads <= self._switch else self._names[1]
+
+
 class Provider:
     """adversarial LLM: may request any tool (registered or not) in every round"""
     name = "adversary"
@@ -48,7 +65,7 @@ def subset(c, name, ncaps):
     return {cap for cap in CAPS[:ncaps] if c.choice(f"{name}_{cap.name}", [False, True])}
 
 
-def history(ncaps, k, ntools):
+def history(ncaps, k, ntools, entries=None):
     NAMES = [f"t{i}" for i in range(ntools)]
 
     def h(c):
@@ -84,7 +101,7 @@ def history(ncaps, k, ntools):
             if act == "register":
                 register(c.choice(f"regname{i}", NAMES))
                 continue
-            entry = c.choice(f"entry{i}", ["metabolize_auto", "metabolize_forced", "execute_tool_call", "tool_loop"])
+            entry = c.choice(f"entry{i}", (entries or ["metabolize_auto", "metabolize_forced", "execute_tool_call", "tool_loop"]) + (["shifty_call"] if len(reg) >= 2 else []))
             before = dict(runs)
             info = {"allowed": None if allowed is None else sorted(x.name for x in allowed), "entry": entry, "trace": list(trace)}
             requested = []
@@ -97,6 +114,24 @@ def history(ncaps, k, ntools):
                     c.fail("C03.total", {"what": "metabolize raised", "raised": repr(r), **info})
                     return
                 requested = [(name, r.success)]
+            elif entry == "shifty_call":
+                # the request names a registered tool at first and another registered tool later
+                a, b = sorted(reg)[:2]
+                first, then = (a, b) if c.choice(f"shift{i}", [0, 1]) == 0 else (b, a)
+                sw_after = c.choice(f"switch_after{i}", [1, 2, 3])
+                call = ShiftyCall("x", first, then, sw_after)
+                st, r = call_returns(c, "C03.total", entry, mito.execute_tool_call, call)
+                if st != "ok":
+                    c.fail("C03.total", {"what": "execute_tool_call raised", "raised": repr(r), **info})
+                    return
+                # whatever the object claimed, a tool whose capabilities are not allowed must not have run
+                for nm in (first, then):
+                    g, req = reg[nm]
+                    if not (allowed is None or req <= allowed):
+                        c.check("C03.a", runs[g] == before.get(g, 0), {"what": "disallowed tool ran through a request object that changed its name between check and use",
+                                                                        "tool": nm, "required": sorted(x.name for x in req), **info})
+                trace.append(f"shifty {first}->{then}@{sw_after}")
+                continue
             elif entry == "execute_tool_call":
                 name = c.choice(f"name{i}", NAMES + ["ghost"])
                 st, r = call_returns(c, "C03.total", entry, mito.execute_tool_call, ToolCall(id="x", name=name, arguments={}))
@@ -154,7 +189,7 @@ def history(ncaps, k, ntools):
 
 HARNESSES = {
     "history": {"make": history, "witness_every": 37,
-                "jobs": lambda tier: ([{"ncaps": 1, "k": 3, "ntools": 1}, {"ncaps": 2, "k": 1, "ntools": 2}] if tier == "quick" else
+                "jobs": lambda tier: ([{"ncaps": 1, "k": 3, "ntools": 1, "entries": ["metabolize_auto", "execute_tool_call"]}, {"ncaps": 1, "k": 2, "ntools": 2}] if tier == "quick" else
                                       [{"ncaps": 3, "k": 2, "ntools": 2}, {"ncaps": 2, "k": 3, "ntools": 2}, {"ncaps": 6, "k": 1, "ntools": 1}]),
                 "clauses": ["C03.a", "C03.b", "C03.c"]},
 }
@@ -166,7 +201,7 @@ META = {
         "technique": "exhaustive symbolic-choice enumeration through mitochondria.py/nucleus.py entry points with side-effect counters (solver share: none, sets are concrete per path)",
     },
     "files": ["operon_ai/organelles/mitochondria.py", "operon_ai/organelles/nucleus.py"],
-    "bounds": {"quick": "1 capability (allowed in {none-restriction, {}, {c}}; required in {{}, {c}}), one tool name, 1 registration + k=3 further actions (call / re-register under the same name / call ...); 2 capabilities, 2 tool names, k=1; tool loop max_iterations=2 with <=2 calls per round",
+    "bounds": {"quick": "1 capability (allowed in {none-restriction, {}, {c}}; required in {{}, {c}}), one tool name, 1 registration + k=3 further actions (call / re-register under the same name / call ...) through metabolize and execute_tool_call; 2 tool names with k=2 through all entry points incl. a request object that changes its name between reads; 2 capabilities, 2 tool names, k=1; tool loop max_iterations=2 with <=2 calls per round",
                "thorough": "3 capabilities k=2; 2 capabilities k=3; all 6 capabilities with one tool and k=1"},
     "outside": ["tools whose declared capability attribute is a non-iterable", "real LLM providers", "argument passing to tools"],
     "float_argument": "none",
